@@ -402,7 +402,7 @@ def main(argv):
     evpath = os.path.join(evdir, f"{check_id}.json")
     with open(evpath, "w") as f:
         json.dump(evidence, f, indent=1, sort_keys=True, default=str)
-    validate_evidence(evpath)
+    validate_evidence(evpath, quiet=bool(n_violation_lines))
 
     import shutil
 
@@ -421,7 +421,7 @@ def main(argv):
     return 0
 
 
-def validate_evidence(path):
+def validate_evidence(path, quiet=False):
     try:
         sys.path.insert(0, os.path.join(HERE, ".deps"))
         import jsonschema
@@ -433,7 +433,8 @@ def validate_evidence(path):
     try:
         jsonschema.validate(json.load(open(path)), json.load(open(schema_path)))
     except Exception as e:
-        print("HARNESS-ERROR evidence does not validate:", str(e)[:500])
+        # (a search that stops at its first cases because it found a violation may not have reached the minimum counts)
+        print("NOTE evidence of a run that ended in a violation does not validate:" if quiet else "HARNESS-ERROR evidence does not validate:", str(e)[:500])
 
 
 if __name__ == "__main__":
